@@ -15,6 +15,13 @@ Close Scope string_scope.
 Open Scope list_scope.
 Open Scope N_scope.
 
+Lemma opt_le_refl a : opt_le a a = true.
+Proof. destruct a; cbn; [apply N.leb_refl|reflexivity]. Qed.
+Lemma opt_ge_refl a : opt_ge a a = true.
+Proof. destruct a; cbn; [apply N.leb_refl|reflexivity]. Qed.
+Lemma opt_pat_refl a : opt_pat a a = true.
+Proof. destruct a; cbn; [apply ustr_eqb_refl|reflexivity]. Qed.
+
 Section CoversMain.
   Variable cls : Heck.CharClasses.
   Variable re native : ustring -> ustring -> bool.
@@ -79,22 +86,23 @@ Section CoversMain.
     - intros ty fmt enum cst nv sv ik items ai mni mxi uq props req ap mnp mxp allo anyo oneo no ref dflt title
              IHitems _ IHprops IHap _ _ _ _.
       intros Hf t Hs ft nn.
-      destruct (frag_obj_inv _ _ _ _ _ _ _ _ _ _ _ _ _ _ _ _ _ _ _ _ _ _ _ _ _ _ Hf)
-        as (nl & k & Hcl & -> & -> & -> & -> & -> & -> & ->).
-      pose proof (classify_cases _ _ _ _ _ _ _ _ _ _ _ _ _ _ _ _ _ _ _ _ _ _ _ _ _ _ Hcl) as Hcases.
+      pose proof Hf as Hfi. apply frag_obj_inv in Hfi. destruct Hfi as (nl & k & Hcl & -> & -> & -> & -> & ->).
+      pose proof Hcl as Hcases. apply classify_cases in Hcases.
       cbn [frag] in Hf. rewrite Hcl in Hf. change (frag_kind cls D k items props req ap = true) in Hf.
       cbn [shape] in Hs. rewrite Hcl in Hs. cbn [Gs].
-      destruct Hcases as [(l & tt & -> & -> & Hsp & Hkt)|(-> & -> & Hrk)].
-      + pose proof (kind_of_type_inv _ _ _ _ _ _ _ _ _ Hkt) as Hinv.
+      destruct Hcases as [(l & tt & -> & -> & Hsp & Hkt)
+                         |(-> & -> & -> & -> & -> & -> & -> & -> & -> & -> & -> & -> & -> & Hrk)].
+      + pose proof Hkt as Hinv. apply kind_of_type_inv in Hinv.
+        destruct Hinv as (-> & Hsv & Hlen & Henum & Hikk & Hobj & Hfmt & Hinv).
         assert (Htyis : forall nn0 want, (nl = true -> nn0 = true) -> tt <> TNull ->
                   existsb (itype_eqb tt) want = true -> ty_is nn0 (Some l) want = true).
         { intros nn0 want Hnn Hnull Hw'. eapply ty_is_split; eassumption. }
         assert (Hleaf : forall t0, kshape cls D T (shape cls D T) k items props req ap t0 ->
                   forall ft0 nn0, (nl = true -> nn0 = true) ->
-                  go re native T A cov (Some l) fmt enum cst numv_none sv ik items None None props req ap
+                  go re native T A cov (Some l) fmt enum None numv_none sv ik items mni mxi props req ap
                      None None None None None (S ft0) nn0 t0 = true).
         { intros t0 Hk0 ft0 nn0 Hnn.
-          destruct k as [| | | |r|raws|deny| | | |r|]; try contradiction; cbn [kshape] in Hk0.
+          destruct k as [| | | |mx mn pat|r|raws|deny| | | |r|]; try contradiction; cbn [kshape] in Hk0.
           - subst tt. eapply go_leaf; [exact Hk0|reflexivity..|].
             cbn [leaf_ok]. apply Htyis; [exact Hnn|discriminate|reflexivity].
           - subst tt. eapply go_leaf; [exact Hk0|reflexivity..|].
@@ -105,10 +113,16 @@ Section CoversMain.
             + eapply go_leaf; [exact Hk0|reflexivity..].
           - subst tt. eapply go_leaf; [exact Hk0|reflexivity..|].
             cbn [leaf_ok]. apply Htyis; [exact Hnn|discriminate|reflexivity].
-          - destruct Hinv as [-> Hfmt]. eapply go_leaf; [exact Hk0|reflexivity..|].
+          - (* KStrC *)
+            destruct Hk0 as (n & sid & Hk0 & Hsid). subst tt. destruct Hsv as [-> _].
+            eapply go_leaf; [exact Hk0|reflexivity..|].
+            cbn [leaf_ok s_max_length s_min_length s_pattern].
+            rewrite (Htyis nn0 [TString] Hnn); [|discriminate|reflexivity]. unfold has in Hsid. rewrite Hsid.
+            rewrite opt_le_refl, opt_ge_refl, opt_pat_refl. reflexivity.
+          - destruct Hinv as [-> Hfmt']. eapply go_leaf; [exact Hk0|reflexivity..|].
             cbn [leaf_ok]. rewrite (Htyis nn0 [TInteger] Hnn); [|discriminate|reflexivity]. cbn [andb].
             assert (Hik : int_kind_ok fmt r = true).
-            { destruct Hfmt as [[-> ->]|(f & -> & Hf')]; [apply int_i64_ok|].
+            { destruct Hfmt' as [[-> ->]|(f & -> & Hf')]; [apply int_i64_ok|].
               exact (proj1 (forallb_forall _ _) int_table_ok (f, r) (assoc_In _ _ _ Hf')). }
             unfold int_kind_ok in Hik. exact Hik.
           - destruct Hk0 as (n & ids & Hv & Hk0). destruct Hinv as [-> (es & -> & Hjs)].
@@ -128,7 +142,7 @@ Section CoversMain.
             eapply go_leaf; [exact Hk0|reflexivity..|].
             cbn [leaf_ok]. apply struct_case_sh; try assumption.
             apply Htyis; [exact Hnn|discriminate|reflexivity].
-          - destruct Hk0 as (kid & vid & Hk0 & Hkid & Hval). destruct Hinv as [-> ->].
+          - destruct Hk0 as (kid & vid & Hk0 & Hkid & Hval). destruct Hinv as (-> & -> & _).
             eapply go_leaf; [exact Hk0|reflexivity..|].
             cbn [leaf_ok]. rewrite (Htyis nn0 [TObject] Hnn); [|discriminate|reflexivity]. cbn [andb].
             unfold has in Hkid. rewrite Hkid. cbn [andb]. unfold addl_ok.
@@ -142,7 +156,7 @@ Section CoversMain.
             cbn [leaf_ok]. rewrite (Htyis nn0 [TArray] Hnn); [|discriminate|reflexivity]. cbn [andb elem_ok].
             cbn [frag_kind forallb] in Hf. rewrite andb_true_r in Hf.
             apply (Cv_covers _ _ false (Forall_inv IHitems) Hf Hit).
-          - destruct Hk0 as (i & Hk0 & Hj). destruct Hinv as (-> & ->).
+          - destruct Hk0 as (i & Hk0 & Hj). destruct Hinv as (-> & -> & _).
             eapply go_leaf; [exact Hk0|reflexivity..|].
             cbn [leaf_ok]. rewrite (Htyis nn0 [TArray] Hnn); [|discriminate|reflexivity]. cbn [andb elem_ok].
             unfold FT. apply accepts_any_json. exact Hj. }
